@@ -40,6 +40,22 @@ def dec_token(rng):
     return f"D:{v}:{p}", Fraction(v, 10 ** p), (v, p)
 
 
+def _dec_pair(x):
+    """(v, p) with x = v / 10^p, p minimal; None when x is not a finite decimal"""
+    d, p = x.denominator, 0
+    while d % 10 == 0:
+        d //= 10; p += 1
+    a = b = 0
+    while d % 2 == 0:
+        d //= 2; a += 1
+    while d % 5 == 0:
+        d //= 5; b += 1
+    if d != 1:
+        return None
+    p += max(a, b)
+    return int(x * 10 ** p), p
+
+
 def render_dec(v, p):
     """independent statement of the decimal text form: sign, integer digits,
     and exactly p fraction digits"""
@@ -121,7 +137,25 @@ def gen_cases(rng, tier):
         # floats and ints through q_mk (exact binary value)
         for f in [0.1, 1e-300, 5e-324, 1.7976931348623157e308, 123456.789, -0.0, 2.5]:
             u = rng.choice(plain)
-            ops.append(["q_mk", rng.choice(["-", ctx.units[u]["cls"]]), rat(Fraction(f)), u, MODE])
+            ops.append(["q_mk", rng.choice(["-", ctx.units[u]["cls"]]), "L:" + rat(Fraction(f)), u, MODE])
+        # every accepted kind of number (int, float, Fraction, both Decimals),
+        # also into quantised types: the exact value, rounded only to the
+        # unit's quantum (few-digit amounts that are NOT on the grid included)
+        qunits = [u for u in ctx.linear_units() if ctx.quantum(u) is not None]
+        for _ in range(30):
+            u = rng.choice(qunits) if qunits and rng.random() < .6 else rng.choice(plain)
+            r = rng.random()
+            if r < .4:
+                x = Fraction(rng.randint(-300, 300), rng.choice([1, 10, 100, 1000]))
+            elif r < .6:
+                x = Fraction(rng.randint(-999, 999), rng.choice([2, 4, 8, 16, 64]))
+            else:
+                x = _qty.amount(rng)
+            mode = rng.choice(["ROUND_HALF_EVEN", "ROUND_DOWN", "ROUND_CEILING", "ROUND_HALF_UP"])
+            ops.append(["q_mk", rng.choice(["-", ctx.units[u]["cls"]]), _qty.kind_tok(rng, x), u, mode])
+            if ctx.quantum(u) is not None:
+                text = render_dec(*_dec_pair(x)) if _dec_pair(x) else f"{x.numerator}/{x.denominator}"
+                ops.append(["q_parse", rng.choice(["-", ctx.units[u]["cls"]]), f"{text} {u}", "-", mode])
         cases.append(_qty.case_of(ctx, ops, ["text"]))
     return cases
 
@@ -197,11 +231,14 @@ def oracle(case, impl):
                     a = val
                     if target != sym:
                         a = val * ctx.units[sym]["scale"] / ctx.units[target]["scale"]
-                    exp = "ok " + ctx.qty(a, target)
+                    a = ctx.grid(sym, val, o[4])
+                    if target != sym:
+                        a = a * ctx.units[sym]["scale"] / ctx.units[target]["scale"]
+                    exp = "ok " + ctx.qty(ctx.grid(target, a, o[4]), target)
             if out != exp:
                 fails.append({"site": "text:parse", "msg": f"{o} -> {out}, expected {exp}"})
         elif o[0] == "q_mk":
-            exp = "ok " + ctx.qty(parse_rat(o[2]), o[3])
+            exp = "ok " + ctx.qty(ctx.grid(o[3], _qty.tok_value(o[2]), o[4]), o[3])
             if o[1] not in ("-", ctx.units[o[3]]["cls"]):
                 exp = "err QuantityError"
             if out != exp:
